@@ -479,17 +479,24 @@ func drawHistory(c *core.Ctx, i int) history {
 	vs := wtest.SendVersions[:6]
 	h := history{vp: vs[c.Choose(l("version"), len(vs))], key: wtest.DrawKey(c, l("key"))}
 	h.s0 = wtest.DrawU32(c, l("seqno"))
-	if h.s0 >= 0xfffffff0 {
+	atMax := false
+	if c.Intn(l("seqno.max"), 8) == 0 {
+		// the largest seqno a wallet can hold: nothing above it exists, so no poll can show an advance
+		h.s0, atMax = 0xffffffff, true
+	} else if h.s0 >= 0xfffffff0 {
 		h.s0 -= 0x100 // leave room above
 	}
 	h.wait = time.Duration(c.Range(l("wait ms"), 100, 300)) * time.Millisecond
 	h.kind = c.Weighted(l("kind"), 5, 3, 2, 1, 1)
+	if atMax {
+		h.kind = []int{histNever, histLower, histAllErrors}[c.Choose(l("kind.max"), 3)]
+	}
 	h.k = c.Range(l("k"), 0, 4)
 	h.delta = uint32(c.OneOf(l("delta"), 1, 1, 2, 10))
 	h.raw = c.Bool(l("raw"))
 	h.junkErr = c.Bool(l("junk"))
 	fail := wtest.Poll{Err: wtest.ErrScriptedSeqno}
-	if h.junkErr {
+	if h.junkErr && !atMax {
 		fail.Seqno = h.s0 + 5
 	}
 	same := wtest.Poll{Seqno: h.s0}
